@@ -157,13 +157,39 @@ def run_impl(sc):
         return expr_probe(sc)
     if sc.get("probe") == "d18":
         return d18_probe(sc)
-    return eng.run_impl(sc)
+    obs = eng.run_impl(sc)
+    if sc.get("async") and obs and any(a_[0] == "yield" for row in sc["tbl"] for s_ in row[3] for a_ in s_["a"]):
+        # the same machine written with plain functions, run right here: every value an operation returns
+        # must be the very same value (for a list of results: the same order), however long the individual
+        # coroutines stay suspended
+        tw = copy.deepcopy(sc)
+        tw.update({"async": [], "wrapped_coros": [], "twin_decoy": None, "decoys": [], "driver": "plain", "sig_attr": False})
+        for row in tw["tbl"]:
+            for s_ in row[3]:
+                s_["a"] = [a_ for a_ in s_["a"] if a_[0] != "yield"]
+        try:
+            ref = eng.run_impl(tw)
+        except Exception:  # noqa: BLE001
+            ref = None
+        if ref is not None and len(ref) == len(obs):
+            def ran(o):
+                return sorted((e[1], e[2], e[3]) for e in o["log"] if e[0] == "c")
+            # (compared where both runs did the same thing: an event, the same callbacks)
+            diff = []
+            for k, (o, t) in enumerate(zip(obs, ref)):
+                if ran(o) != ran(t) or o["out"][0] != t["out"][0]:
+                    break           # (from here on the call counters of the two runs may differ)
+                if sc["ops"][k][0] in ("send", "call") and o["out"][0] == "v" and o["out"] != t["out"]:
+                    diff.append(k)
+            if diff:
+                obs[0]["twin_result_differs"] = diff
+    return obs
 
 
 def coq_case(sc, obs):
     if sc.get("probe"):
         return f"(asserted {0 if obs['bad'] else 1})"
-    if obs and (obs[0].get("never_awaited") or obs[0].get("overlap")):
+    if obs and (obs[0].get("never_awaited") or obs[0].get("overlap") or obs[0].get("twin_result_differs")):
         return "(asserted 0)"
     return "(wfc " + eng.coq_case(sc, obs) + ")"
 
